@@ -251,6 +251,33 @@ Definition user_prec (f : gform) (n : nat) (g : gval) : option qmatT :=
       end
   end.
 
+(* ---- sup-norm helpers.  Every tolerance of the checkers is RELATIVE to the sup norm of the model's value (of the
+   block it belongs to), never absolute: a problem posed in tiny or huge units cannot pass vacuously. ---- *)
+Definition qabs_c (q : Qc) : Q := Qabs (this q).
+Definition qmaxabs (v : qvecT) : Q := fold_right (fun a m => if Qle_bool (qabs_c a) m then m else qabs_c a) 0%Q v.
+(* |a - b|_inf <= tol * (1 + |b|_inf), equal lengths: ONLY for dimensionless quantities (comparison with the identity) *)
+Definition vclose_sup (tol : Q) (a b : qvecT) : bool :=
+  (length a =? length b)%nat && Qle_bool (qmaxabs (qvsub a b)) (tol * (1 + qmaxabs b))%Q.
+(* |a - b|_inf <= tol * |b|_inf, equal lengths (tol = 0: a = b) *)
+Definition vclose_rel (tol : Q) (a b : qvecT) : bool :=
+  (length a =? length b)%nat && Qle_bool (qmaxabs (qvsub a b)) (tol * qmaxabs b)%Q.
+(* |a - b|_inf <= tol * sc for a scale sc derived from the problem itself *)
+Definition vclose_scale (tol sc : Q) (a b : qvecT) : bool :=
+  (length a =? length b)%nat && Qle_bool (qmaxabs (qvsub a b)) (tol * sc)%Q.
+Definition qmax (a b : Q) : Q := if Qle_bool a b then b else a.
+(* every row within tol * (largest entry of the whole model matrix B) *)
+Definition mclose_rel (tol : Q) (A B : qmatT) : bool :=
+  let sc := (tol * qmaxabs (concat B))%Q in
+  list_eqb (fun r1 r2 => (length r1 =? length r2)%nat && Qle_bool (qmaxabs (qvsub r1 r2)) sc) A B.
+(* stacked vectors: block by block (blocks of lengths lens), each relative to its own block of the model value *)
+Fixpoint seg_close (tol : Q) (lens : list nat) (a b : qvecT) : bool :=
+  match lens with
+  | [] => match a, b with [], [] => true | _, _ => false end
+  | k :: r => vclose_rel tol (firstn k a) (firstn k b) && seg_close tol r (skipn k a) (skipn k b)
+  end.
+Definition segs_close (tol : Q) (lens : list nat) (A B : qmatT) : bool := list_eqb (seg_close tol lens) A B.
+Definition rows_close (tol : Q) (A B : qmatT) : bool := list_eqb (vclose_rel tol) A B.
+
 Fixpoint is_diag_from (k : nat) (A : qmatT) : bool :=    (* off-diagonal entries zero, diagonal >= 0 *)
   match A with
   | [] => true
@@ -266,7 +293,7 @@ Definition sqrtprec_ok (tol : Q) (f : gform) (n : nat) (g : gval) (S : qmatT) : 
   match user_prec f n g with
   | None => false
   | Some P =>
-      q_shape n n S && qcll_close tol (q_gram n S) P &&
+      q_shape n n S && mclose_rel tol (q_gram n S) P &&
       match g with
       | GMatrix m _ => match f with FSqrtprec => qcll_eqb S m | _ => true end
       | _ => is_diag_from 0 S
@@ -280,14 +307,7 @@ Definition q_madd (A B : qmatT) : qmatT := map (fun p => qvadd (fst p) (snd p)) 
 Definition gmrf_prec (n : nat) (delta reg : Qc) (Pop : qmatT) : qmatT :=
   q_mscale delta (q_madd Pop (q_mscale reg (q_ident n))).
 Definition gmrf_sqrtprec_ok (tol : Q) (n : nat) (delta reg : Qc) (Pop S : qmatT) : bool :=
-  q_shape n n Pop && q_shape n n S && qcll_close tol (q_gram n S) (gmrf_prec n delta reg Pop).
-
-(* ---- sup-norm helpers ---- *)
-Definition qabs_c (q : Qc) : Q := Qabs (this q).
-Definition qmaxabs (v : qvecT) : Q := fold_right (fun a m => if Qle_bool (qabs_c a) m then m else qabs_c a) 0%Q v.
-(* |a - b|_inf <= tol * (1 + |b|_inf), equal lengths *)
-Definition vclose_sup (tol : Q) (a b : qvecT) : bool :=
-  (length a =? length b)%nat && Qle_bool (qmaxabs (qvsub a b)) (tol * (1 + qmaxabs b))%Q.
+  q_shape n n Pop && q_shape n n S && mclose_rel tol (q_gram n S) (gmrf_prec n delta reg Pop).
 
 (* ---- checkers for LinearRTO ---- *)
 Definition mk_lik (n : nat) (A S : qmatT) (b : qvecT) : lik Qc := mkLik (q_matrix_model n A) S b.
@@ -296,24 +316,33 @@ Definition lik_shape_ok (n : nat) (l : qmatT * qmatT * qvecT) : bool :=
 Definition mk_liks (n : nat) (ls : list (qmatT * qmatT * qvecT)) : list (lik Qc) :=
   map (fun l => let '(A, L, b) := l in mk_lik n A L b) ls.
 
+(* lengths of the blocks of the stacked vectors: one per likelihood, then the prior *)
+Definition block_lens (liks : list (lik Qc)) (pr : prior Qc) : list nat :=
+  map (fun l => length (l_data l)) liks ++ [length (p_Lmu pr)].
+
 (* observed b_tild, M(e_j, 1) for all j < n, M(e_i, 2) for all i < len(b_tild): tol = 0 means EXACT *)
 Definition check_precompute (tol : Q) (n : nat) (ls : list (qmatT * qmatT * qvecT)) (pr : prior Qc)
            (o_b : qvecT) (o_fwd o_adj : qmatT) : bool :=
   let liks := mk_liks n ls in
   let p := length (q_b_tild liks pr) in
+  let lens := block_lens liks pr in
   forallb (lik_shape_ok n) ls &&
-  qcl_close tol o_b (q_b_tild liks pr) &&
-  qcll_close tol o_fwd (map (fun j => q_M_fwd liks pr (qunit n j)) (seq 0 n)) &&
-  qcll_close tol o_adj (map (fun i => q_M_adj n liks pr (qunit p i)) (seq 0 p)).
+  seg_close tol lens o_b (q_b_tild liks pr) &&
+  segs_close tol lens o_fwd (map (fun j => q_M_fwd liks pr (qunit n j)) (seq 0 n)) &&
+  rows_close tol o_adj (map (fun i => q_M_adj n liks pr (qunit p i)) (seq 0 p)).
 
-(* certificate for one transition: the returned point satisfies the normal equations of the MODEL's (M, b_tild) *)
-Definition check_draw (tol : Q) (n : nat) (ls : list (qmatT * qmatT * qvecT)) (pr : prior Qc) (e xout : qvecT) : bool :=
+(* certificate for one transition: the returned point satisfies the normal equations of the MODEL's (M, b_tild), to
+   within tol times the larger of |M^T y| and the initial normal residual |M^T (y - M x_cur)| (CGLS's own notion of
+   convergence is relative to the latter): no absolute tolerance, invariant under a change of units *)
+Definition check_draw (tol : Q) (n : nat) (ls : list (qmatT * qmatT * qvecT)) (pr : prior Qc) (xcur e xout : qvecT) : bool :=
   let liks := mk_liks n ls in
   let b := q_b_tild liks pr in
-  (length e =? length b)%nat && (length xout =? n)%nat &&
-  vclose_sup tol (q_M_adj n liks pr (q_M_fwd liks pr xout)) (q_M_adj n liks pr (qvadd b e)).
-Definition check_draws tol n ls pr (draws : list (qvecT * qvecT)) : bool :=
-  forallb (fun d => check_draw tol n ls pr (fst d) (snd d)) draws.
+  let rhs := q_M_adj n liks pr (qvadd b e) in
+  let r0 := qvsub rhs (q_M_adj n liks pr (q_M_fwd liks pr xcur)) in
+  (length e =? length b)%nat && (length xout =? n)%nat && (length xcur =? n)%nat &&
+  vclose_scale tol (qmax (qmaxabs rhs) (qmaxabs r0)) (q_M_adj n liks pr (q_M_fwd liks pr xout)) rhs.
+Definition check_draws tol n ls pr (draws : list (qvecT * qvecT * qvecT)) : bool :=
+  forallb (fun d => let '(xcur, e, x) := d in check_draw tol n ls pr xcur e x) draws.
 
 (* the affine map read off from scripted draws: x0 = x(e = 0), xs_i = x(e = e_i), G = [xs_i - x0].
    Against the posterior the USER specified: H x0 = rhs (offset = posterior mean) and H (G G^T) = I
@@ -324,16 +353,24 @@ Definition H_matrix (n : nat) (us : list (qmatT * qmatT * qvecT)) (pfs : list (q
   qtranspose n (map (fun j => q_H_apply n (mk_uliks n us) pfs (qunit n j)) (seq 0 n)).
 Definition mclose_sup (tol : Q) (A B : qmatT) : bool :=
   (length A =? length B)%nat && forallb (fun p => vclose_sup tol (fst p) (snd p)) (combine A B).
+(* the read-off perturbs with c e_i (c > 0 a power of two at the scale of the data, supplied by the harness):
+   by linearity g_i = (x(c e_i) - x(0)) / c *)
+Definition read_G (c : Qc) (x0 : qvecT) (xs : qmatT) : qmatT := map (fun x => qvscale (/ c) (qvsub x x0)) xs.
+(* the natural scale of the unknown, from the read-off itself: max(|x(0)|, |G|)  (|G|^2 ~ posterior variance) *)
+Definition x_scale (c : Qc) (x0 : qvecT) (xs : qmatT) : Q :=
+  fold_right (fun g m => qmax (qmaxabs g) m) (qmaxabs x0) (read_G c x0 xs).
 Definition check_law (tol : Q) (n : nat) (us : list (qmatT * qmatT * qvecT)) (pfs : list (qmatT * qvecT))
-           (x0 : qvecT) (xs : qmatT) : bool :=
+           (c : Qc) (x0 : qvecT) (xs : qmatT) : bool :=
   let H := H_matrix n us pfs in
-  let G := map (fun x => qvsub x x0) xs in                    (* rows g_i: this is G^T *)
-  (length x0 =? n)%nat && forallb (fun x => (length x =? n)%nat) xs &&
-  vclose_sup tol (qmatvec H x0) (q_rhs_apply n (mk_uliks n us) pfs) &&
+  let G := read_G c x0 xs in                                  (* rows g_i: this is G^T *)
+  negb (qc_is0 c) && (length x0 =? n)%nat && forallb (fun x => (length x =? n)%nat) xs &&
+  vclose_scale tol (qmaxabs (q_rhs_apply n (mk_uliks n us) pfs) + qmaxabs (concat H) * x_scale c x0 xs)
+               (qmatvec H x0) (q_rhs_apply n (mk_uliks n us) pfs) &&
   mclose_sup tol (qmatmul n H (q_gram n G)) (q_ident n).
 
 (* the draw does not depend on the current state: same e, other x_cur, same point (within tol) *)
-Definition check_state_indep (tol : Q) (xa xb : qvecT) : bool := vclose_sup tol xa xb.
+Definition check_state_indep (tol : Q) (c : Qc) (x0 : qvecT) (xs : qmatT) (pairs : list (qvecT * qvecT)) : bool :=
+  forallb (fun p => vclose_scale tol (x_scale c x0 xs) (fst p) (snd p)) pairs.
 
 (* Gaussian input forms: every likelihood's and the prior's observed sqrtprec obeys its law *)
 Definition check_forms (tol : Q) (items : list (gform * nat * gval * qmatT)) : bool :=
@@ -345,10 +382,11 @@ Definition check_tuple (tol : Q) (n : nat) (data : qvecT) (A : qmatT) (Lsp : q_s
            (o_b : qvecT) (o_fwd o_adj : qmatT) : bool :=
   let '(liks, pr) := q_of_tuple n data A Lsp Pmean Psp in
   let p := length (q_b_tild liks pr) in
+  let lens := block_lens liks pr in
   q_shape (length data) n A &&
-  qcl_close tol o_b (q_b_tild liks pr) &&
-  qcll_close tol o_fwd (map (fun j => q_M_fwd liks pr (qunit n j)) (seq 0 n)) &&
-  qcll_close tol o_adj (map (fun i => q_M_adj n liks pr (qunit p i)) (seq 0 p)).
+  seg_close tol lens o_b (q_b_tild liks pr) &&
+  segs_close tol lens o_fwd (map (fun j => q_M_fwd liks pr (qunit n j)) (seq 0 n)) &&
+  rows_close tol o_adj (map (fun i => q_M_adj n liks pr (qunit p i)) (seq 0 p)).
 
 (* refusals (DECISION): GMRF with a mean of another length than n *)
 Definition check_gmrf_refusal (n : nat) (S : qmatT) (mean : qvecT) (refused : bool) : bool :=
@@ -392,29 +430,33 @@ Definition check_ugla_precompute (tol : Q) (v : ugla_variant) (w : ugla_raw) (xk
   let p := length (q_ugla_b_tild v c sw) in
   raw_ok tol w && (length xk =? n)%nat &&
   weight_ok tol (w_D w) (q_ugla_weight_arg v n (w_loc w) xk) (w_beta w) sw &&
-  qcll_close tol o_L2 (q_ugla_L2 c sw) &&
-  qcl_close tol o_b (q_ugla_b_tild v c sw) &&
-  qcll_close tol o_fwd (map (fun j => q_ugla_M_fwd c sw (qunit n j)) (seq 0 n)) &&
-  qcll_close tol o_adj (map (fun i => q_ugla_M_adj c sw (qunit p i)) (seq 0 p)).
+  let lens := [length (w_b w); length (w_D w)] in
+  mclose_rel tol o_L2 (q_ugla_L2 c sw) &&
+  seg_close tol lens o_b (q_ugla_b_tild v c sw) &&
+  segs_close tol lens o_fwd (map (fun j => q_ugla_M_fwd c sw (qunit n j)) (seq 0 n)) &&
+  rows_close tol o_adj (map (fun i => q_ugla_M_adj c sw (qunit p i)) (seq 0 p)).
 
-Definition check_ugla_draws (tol : Q) (v : ugla_variant) (w : ugla_raw) (sw : qvecT) (draws : list (qvecT * qvecT)) : bool :=
+Definition check_ugla_draws (tol : Q) (v : ugla_variant) (w : ugla_raw) (xk sw : qvecT) (draws : list (qvecT * qvecT)) : bool :=
   let c := raw_cfg w in
   let b := q_ugla_b_tild v c sw in
   forallb (fun d => let '(e, xout) := d in
+             let rhs := q_ugla_M_adj c sw (qvadd b e) in
+             let r0 := qvsub rhs (q_ugla_M_adj c sw (q_ugla_M_fwd c sw xk)) in
              (length e =? length b)%nat && (length xout =? w_n w)%nat &&
-             vclose_sup tol (q_ugla_M_adj c sw (q_ugla_M_fwd c sw xout)) (q_ugla_M_adj c sw (qvadd b e))) draws.
+             vclose_scale tol (qmax (qmaxabs rhs) (qmaxabs r0)) (q_ugla_M_adj c sw (q_ugla_M_fwd c sw xout)) rhs) draws.
 
 (* affine read-off against the DOCUMENTED local Gaussian at x_k (weights swd certified for D (x_k - loc)):
    H_doc x0 = rhs_doc and H_doc (G G^T) = I, with Lam the user-level noise precision *)
 Definition ugla_Hdoc_matrix (w : ugla_raw) (Lam : qmatT) (swd : qvecT) : qmatT :=
   qtranspose (w_n w) (map (fun j => q_ugla_H_doc (raw_cfg w) Lam swd (qunit (w_n w) j)) (seq 0 (w_n w))).
-Definition check_ugla_law (tol : Q) (w : ugla_raw) (Lam : qmatT) (xk swd x0 : qvecT) (xs : qmatT) : bool :=
+Definition check_ugla_law (tol : Q) (w : ugla_raw) (Lam : qmatT) (cpert : Qc) (xk swd x0 : qvecT) (xs : qmatT) : bool :=
   let n := w_n w in
   let H := ugla_Hdoc_matrix w Lam swd in
-  let G := map (fun x => qvsub x x0) xs in
-  raw_ok tol w && (length x0 =? n)%nat && forallb (fun x => (length x =? n)%nat) xs &&
+  let G := read_G cpert x0 xs in
+  negb (qc_is0 cpert) && raw_ok tol w && (length x0 =? n)%nat && forallb (fun x => (length x =? n)%nat) xs &&
   weight_ok tol (w_D w) (q_ugla_weight_arg UglaDoc n (w_loc w) xk) (w_beta w) swd &&
-  vclose_sup tol (qmatvec H x0) (q_ugla_rhs_doc (raw_cfg w) Lam swd) &&
+  vclose_scale tol (qmaxabs (q_ugla_rhs_doc (raw_cfg w) Lam swd) + qmaxabs (concat H) * x_scale cpert x0 xs)
+               (qmatvec H x0) (q_ugla_rhs_doc (raw_cfg w) Lam swd) &&
   mclose_sup tol (qmatmul n H (q_gram n G)) (q_ident n).
 
 (* ---- the posterior as the USER specified it (no square roots): used by the affine-map read-off ---- *)
@@ -443,9 +485,9 @@ Definition lik_factors (n : nat) (ls : list (qmatT * gform * gval * qvecT)) : op
                  else None) ls.
 
 Definition check_law_spec (tol : Q) (n : nat) (ls : list (qmatT * gform * gval * qvecT)) (ps : prior_spec)
-           (x0 : qvecT) (xs : qmatT) : bool :=
+           (c : Qc) (x0 : qvecT) (xs : qmatT) : bool :=
   match lik_factors n ls, prior_factors n ps with
-  | Some us, Some pfs => check_law tol n us pfs x0 xs
+  | Some us, Some pfs => check_law tol n us pfs c x0 xs
   | _, _ => false
   end.
 
@@ -458,8 +500,8 @@ Definition check_target_accepted (i : iface) (t : tkind) (accepted : bool) : boo
   Bool.eqb accepted (target_accepted i t).
 
 (* UGLA law with the noise given by its input form *)
-Definition check_ugla_law_spec (tol : Q) (w : ugla_raw) (f : gform) (g : gval) (xk swd x0 : qvecT) (xs : qmatT) : bool :=
+Definition check_ugla_law_spec (tol : Q) (w : ugla_raw) (f : gform) (g : gval) (cpert : Qc) (xk swd x0 : qvecT) (xs : qmatT) : bool :=
   match user_prec f (length (w_b w)) g with
-  | Some Lam => check_ugla_law tol w Lam xk swd x0 xs
+  | Some Lam => check_ugla_law tol w Lam cpert xk swd x0 xs
   | None => false
   end.
